@@ -1145,6 +1145,8 @@ func (e *Enc) execInstr(fr *Frame, ins ssa.Instruction, cur *pathState) {
 		e.execSelect(fr, x, cur)
 	case *ssa.Send:
 		e.note("channel send modelled as skip (no blocking, no effect on verified heap)")
+		// ghosts: sent(x.f) / lastsent(x.f) in specifications (sends through channel field f of x)
+		e.chanFieldGhost(fr, cur, "true", x.Chan, e.val(fr, x.X), "chsent_", "chlastsent_")
 	case *ssa.Go:
 		e.note("go statement: spawned goroutine not verified as concurrent code (skip)")
 		// ghost: spawn counters, calls(go:f) / lastarg(go:f, i) in specifications
@@ -1810,6 +1812,10 @@ func (e *Enc) execSelect(fr *Frame, x *ssa.Select, cur *pathState) {
 // (received(x.f) / lastrecv(x.f) in specifications), so no assumption about distinct channel
 // values is needed; channels not loaded from a field are not tracked.
 func (e *Enc) chanRecvGhost(fr *Frame, cur *pathState, cond string, ch ssa.Value, v Val) {
+	e.chanFieldGhost(fr, cur, cond, ch, v, "chrecv_", "chlast_")
+}
+
+func (e *Enc) chanFieldGhost(fr *Frame, cur *pathState, cond string, ch ssa.Value, v Val, cntPfx, lastPfx string) {
 	ld, ok := ch.(*ssa.UnOp)
 	if !ok || ld.Op != token.MUL {
 		return
@@ -1828,13 +1834,13 @@ func (e *Enc) chanRecvGhost(fr *Frame, cur *pathState, cond string, ch ssa.Value
 	}
 	fname := stT.Underlying().(*types.Struct).Field(fa.Field).Name()
 	key := e.structName(stT) + "_" + sanitize(fname)
-	cc := e.comp("chrecv_"+key, "(Array Ref Int)", "ghost", "G:recv")
+	cc := e.comp(cntPfx+key, "(Array Ref Int)", "ghost", "G:recv")
 	old := e.get(cur.st, cc)
 	e.set(cur.st, cc, ite(cond, store(old, owner.T, "(+ "+sel(old, owner.T)+" 1)"), old))
 	if v.S == "" || v.Tup != nil || v.S == "Unit" {
 		return
 	}
-	lc := e.comp("chlast_"+key, "(Array Ref "+v.S+")", "ghost", "G:recv")
+	lc := e.comp(lastPfx+key, "(Array Ref "+v.S+")", "ghost", "G:recv")
 	lo := e.get(cur.st, lc)
 	e.set(cur.st, lc, ite(cond, store(lo, owner.T, v.T), lo))
 }
@@ -2026,6 +2032,10 @@ func (e *Enc) directCallFams(fn *ssa.Function, blocks []*ssa.BasicBlock, ms *Mod
 	for _, b := range blocks {
 		for _, ins := range b.Instrs {
 			if u, ok := ins.(*ssa.UnOp); ok && u.Op == token.ARROW {
+				ms.add("G:recv")
+			}
+			switch ins.(type) {
+			case *ssa.Send, *ssa.Select:
 				ms.add("G:recv")
 			}
 			var c *ssa.CallCommon
